@@ -15,21 +15,22 @@ Open Scope N_scope.
    = the decision of the first matching rule. *)
 Theorem Link_route_with_real_matcher_and_trie :
   forall (p : program) (pk : packet) (rx_ok : str -> bool) (rx : str -> str -> bool),
-    wf_program p = true -> wf_packet pk = true ->
+    wf_program p = true -> wf_packet pk = true ->   (* includes: the raw domain is over the host-name alphabet *)
     kw_nonempty (c01_sets p) = true -> sets_size_ok (c01_sets p) -> sets_ok rx_ok (c01_sets p) = true ->
-    name_ok (bytes (p_domain pk)) = true ->
-    c01_idx_ok p = true -> normalized (bytes (p_domain pk)) -> c01_regex_oracles_agree p rx pk ->
+    c01_idx_ok p = true -> p_domain pk <> "."%string -> c01_regex_oracles_agree p rx pk ->
     exists m, c11_build rx_ok (c01_sets p) = Some m /\
               model_route_trie p (c01_dm rx m) pk = Ok (decide p pk).
 Proof.
-  intros p pk rx_ok rx Hwf Hpk Hk Hs Ho Hn Hidx Hz Hrx.
+  intros p pk rx_ok rx Hwf Hpk Hk Hs Ho Hidx Hroot Hrx.
+  assert (Hn : name_ok (bytes (p_domain pk)) = true).
+  { rewrite <- c01_alphabet_name_ok. unfold wf_packet in Hpk. repeat (apply andb_true_iff in Hpk as [Hpk _]). exact Hpk. }
   destruct (c11_build_bit rx_ok rx (c01_sets p) Hk Hs Ho) as [m [Hb _]].
   exists m. split; [exact Hb|].
   apply Link_route_with_real_trie; [exact Hwf | exact Hpk |].
-  exact (c01_oracle_discharged p pk rx_ok rx m Hk Hs Ho Hb Hidx Hn Hz Hrx).
+  exact (c01_oracle_discharged p pk rx_ok rx m Hk Hs Ho Hb Hidx Hn Hroot Hrx).
 Qed.
 Print Assumptions Link_route_with_real_matcher_and_trie.
 
 (* DISCHARGED: C01_domain_oracle_agrees (C11) and "CIDR containment computed directly" (C12), together.
-   REMAINING: exactly the premises of Link_route_with_real_domain_matcher plus wf_packet (addresses below 2^128:
-   the trie reads 16 bytes, see Link_route_with_real_trie_needs_wf_packet). *)
+   REMAINING: the premises of Link_route_with_real_domain_matcher, with name_ok now part of wf_packet (which also
+   bounds the addresses below 2^128: the trie reads 16 bytes, see Link_route_with_real_trie_needs_wf_packet). *)
